@@ -263,7 +263,7 @@ def run(ctx):
     ctx.add_tlc(res)
     if res.violated:
         raise vlib.ToolError("AnnoGen generator invariant %s violated:\n%s" % (res.violated, res.trace_text[:2000]))
-    n = ctx.pick(250, 4000)
+    n = ctx.pick(500, 4000)
     sim = vlib.tlc("AnnoGen", "AnnoGen_sim", workers=1, simulate="num=%d" % n, depth=20, seed=ctx.seed,
                    timeout=ctx.pick(900, 3000))
     ctx.cov["transitions"] += sim.generated
